@@ -1619,7 +1619,7 @@ namespace avel {
         auto ret = _mm_getmant_ps(decay(v), _MM_MANT_NORM_p5_1, _MM_MANT_SIGN_src);
         // Note: Returns -1 or 1 for -infinity and +infinity respectively
 
-        ret = _mm_maskz_mov_ps(is_non_zero, ret);
+        ret = _mm_mask_mov_ps(decay(v), is_non_zero, ret);
         ret = _mm_mask_blend_ps(is_infinity, ret, decay(v));
         return vec4x32f{ret};
 
@@ -1634,7 +1634,7 @@ namespace avel {
         auto ret = _mm_getmant_ps(decay(v), _MM_MANT_NORM_p5_1, _MM_MANT_SIGN_src);
         // Note: Returns -1 or 1 for -infinity and +infinity respectively
 
-        ret = _mm_maskz_mov_ps(is_non_zero, ret);
+        ret = _mm_mask_mov_ps(decay(v), is_non_zero, ret);
         ret = _mm_mask_blend_ps(is_infinity, ret, decay(v));
         return vec4x32f{ret};
 
@@ -1642,7 +1642,7 @@ namespace avel {
         #elif defined(AVEL_SSE2)
         auto v_bits = _mm_castps_si128(decay(v));
 
-        auto is_v_zero = _mm_cmpeq_epi32(v_bits, _mm_setzero_si128());
+        auto is_v_zero = _mm_cmpeq_epi32(_mm_slli_epi32(v_bits, 1), _mm_setzero_si128());
 
         // Check if v is subnormal
         auto abs_mask = _mm_set1_epi32(float_sign_bit_mask_bits);
